@@ -208,7 +208,14 @@ impl Walrus {
         }
     }
 
-    pub(super) fn get_or_create_writer(&self, col_name: &str) -> std::io::Result<Arc<Writer>> {
+    /// `first_need` is the space (header + payload) the entry about to be written
+    /// needs; a new writer's first block is sized for it, so that an entry larger than
+    /// one allocation unit does not leave an empty block behind.
+    pub(super) fn get_or_create_writer(
+        &self,
+        col_name: &str,
+        first_need: u64,
+    ) -> std::io::Result<Arc<Writer>> {
         if let Some(writer) = {
             let map = self.writers.read().map_err(|_| {
                 std::io::Error::new(std::io::ErrorKind::Other, "writers read lock poisoned")
@@ -230,7 +237,11 @@ impl Walrus {
 
         // SAFETY: The returned block will be held by this writer only
         // and appended/sealed before being exposed to readers.
-        let initial_block = unsafe { self.allocator.get_next_available_block()? };
+        let initial_block = if first_need > DEFAULT_BLOCK_SIZE {
+            unsafe { self.allocator.alloc_block(first_need)? }
+        } else {
+            unsafe { self.allocator.get_next_available_block()? }
+        };
         let writer = Arc::new(Writer::new(
             self.allocator.clone(),
             initial_block,
